@@ -232,7 +232,52 @@ class Exec:
                 if k not in saved: del env[k]
             env.update(saved)
         return out
+    def _comprehension_fork(self, node, st):
+        """single-generator comprehension over a symbolic *tuple* (fixed arity): conditions may be symbolic, paths fork.
+        yields (state, python list) or nothing if the shape is not this one"""
+        if len(node.generators) != 1 or node.generators[0].is_async: return None
+        g = node.generators[0]
+        res = list(self.ev(g.iter, st))
+        if len(res) != 1 or isinstance(res[0][1], Raise) or res[0][0] is not st: return None
+        it = res[0][1]
+        if not (isinstance(it, Sym) and it.ty.kind == "tuple"): return None
+        srt = sort_of(it.ty)
+        elems = [Sym(it.ty.args[i], srt.accessor(0, i)(it.z)) for i in range(len(it.ty.args))]
+        names = [n.id for n in ast.walk(g.target) if isinstance(n, ast.Name)]
+        had = {n: (n in st.frames[-1].env, st.frames[-1].env.get(n)) for n in names}
+        work = [(st, [])]
+        for x in elems:
+            nxt = []
+            for s, out in work:
+                for s1, r in list(self.assign(s, g.target, x)):
+                    if r[0] != "next": raise Unsupported("comprehension target")
+                    states = [(s1, True)]
+                    for cond in g.ifs:
+                        new = []
+                        for s2, keep in states:
+                            if not keep: new.append((s2, False)); continue
+                            for s3, v in list(self.ev(cond, s2)):
+                                if isinstance(v, Raise): raise Unsupported("raising comprehension condition")
+                                new.extend(list(self.fork(s3, v)))
+                        states = new
+                    for s2, keep in states:
+                        if not keep: nxt.append((s2, out)); continue
+                        for s3, v in list(self.ev(node.elt, s2)):
+                            if isinstance(v, Raise): raise Unsupported("raising comprehension element")
+                            if isinstance(v, Sym) and v.ty.kind == "opt" and not feasible(s3.pc, sort_of(v.ty).is_none(v.z)): v = unopt(v)   # narrowed by the condition
+                            nxt.append((s3, out + [v]))
+            work = nxt
+        for s, out in work:
+            env = s.frames[-1].env
+            for n, (was, val) in had.items():       # the target of a comprehension does not leak
+                if was: env[n] = val
+                else: env.pop(n, None)
+        return work
     def ev_ListComp(self, node, st):
+        w = self._comprehension_fork(node, st)
+        if w is not None:
+            for s, out in w: yield s, out
+            return
         r = self._comprehension(node, st)
         yield st, (Opaque() if r is None else r)
     def ev_GeneratorExp(self, node, st):
@@ -630,6 +675,7 @@ class Exec:
 
     def to_str(self, st, v, conv="s"):
         """z3 String term for str(v) / repr(v)"""
+        if isinstance(v, Sym) and v.ty.kind == "opt" and v.ty.args[0].kind in ("int", "str") and not feasible(st.pc, sort_of(v.ty).is_none(v.z)): v = unopt(v)
         if isinstance(v, Sym):
             if v.ty.kind == "str": return repr_str(v.z) if conv == "r" else v.z
             if v.ty.kind == "int": return z3.If(v.z < 0, z3.Concat(z3.StringVal("-"), z3.IntToStr(-v.z)), z3.IntToStr(v.z))
